@@ -87,6 +87,7 @@ inductive Prim
   | closeUser (id : Nat)                         -- uv_fs_close(id)
   | userClose (id : Nat)                         -- the application closes its own descriptor
   | userCloseAll
+  | closeQ (h : Nat)                             -- close every queued descriptor of handle h (stream.c:1556-1562)
   | transfer (src dst : Owner)
   | adopt (id : Nat) (dst : Owner)               -- uv_*_open: ownership passes to the handle
   | say (line : String)
@@ -150,6 +151,11 @@ def exec1raw (l : Ledger) : Prim → Ledger
     | none => l
     | some e => if e.owner = .user then { l with led := l.led.filter (·.id ≠ id), out := s!"env fd- f{id}" :: l.out } else l
   | .userCloseAll => { l with led := l.led.filter (·.owner ≠ .user) }
+  | .closeQ h =>
+    let qs := l.led.filter (·.owner = .handle h .q)
+    { l with led := l.led.filter (·.owner ≠ .handle h .q),
+             evs := (qs.map (fun e => Ev.close e false)).reverse ++ l.evs,
+             out := (qs.map (fun e => s!"env fd- f{e.id}")).reverse ++ l.out }
   | .transfer src dst =>
     match find? l.led src with
     | none => l
